@@ -129,6 +129,11 @@ Exact ==
        IF Mode = "ff" THEN (res = <<qa>>) <=> IsAncestor(A, qa, CHOOSE b \in qD : TRUE)
        ELSE SeqSet(res) = MB
 
+\* the fast-forward answer derived from the same run (for runs without cut-off and |qD| = 1)
+FfFromLcasExact ==
+    (Mode = "lcas" /\ pc = "done" /\ Cardinality(qD) = 1) =>
+       ((res = <<qa>>) <=> IsAncestor(A, qa, CHOOSE b \in qD : TRUE))
+
 ExactWhenStrict ==
     (IsLcas /\ pc = "done" /\ StrictlyMonotone(par, ts, Rel)) =>
        IF Mode = "ff" THEN (res = <<qa>>) <=> IsAncestor(A, qa, CHOOSE b \in qD : TRUE)
